@@ -37,6 +37,14 @@ pub fn features(v: &V) -> Vec<String> {
     }
 }
 
+/// the tokens of a rendering, sorted: what stays the same when unordered components (and the operands of symmetric
+/// statements, which `==` treats as unordered) are printed in another order
+pub fn token_bag(s: &str) -> String {
+    let mut t: Vec<&str> = s.split_whitespace().collect();
+    t.sort_unstable();
+    t.join(" ")
+}
+
 /// the rendering of the trait route; the text of every public route must be normalised
 fn render(n: &Narsese) -> Result<String, String> {
     let texts = ops::typst_routes(n)?;
@@ -174,34 +182,35 @@ pub fn run(run: &Run) {
         });
         sets.lock().unwrap().entry(r.canon()).or_default().insert(r.clone(), mine);
     });
+    // "equal values render identically up to the order of unordered components": all renderings of one canonical class -
+    // every recipe, every iteration order realised - must consist of the same tokens. (Comparing texts under a common
+    // stored order would still demand too much: a renderer may remember the text it printed for an equal value and print
+    // that again, in whatever order it had.)
     let g = sets.lock().unwrap();
-    let (mut common_orders, mut recipe_pairs_without_common_order) = (0u64, 0u64);
+    let mut compared = 0u64;
     for (class, per_recipe) in g.iter() {
-        let mut it = per_recipe.iter();
-        let (r0, s0) = it.next().unwrap();
-        for (r1, s1) in it {
-            let mut common = 0;
-            for (order, text0) in s0 {
-                if let Some(text1) = s1.get(order) {
-                    common += 1;
-                    run.eval(1);
-                    if text0 != text1 {
-                        run.violation(
-                            &format!("{} and {} are the same value ({}) and are stored in the same order {order}, but render differently: {text0:?} vs {text1:?}", r0.show(), r1.show(), class.show()),
-                            json!({"op": "typst_render", "value": V::term(r1.clone()).to_json()}),
-                            &[],
-                        );
+        let mut first: Option<(String, String, String)> = None; // (bag, recipe, text)
+        for (r, texts) in per_recipe.iter() {
+            for text in texts.values() {
+                let bag = token_bag(text);
+                match &first {
+                    None => first = Some((bag, r.show(), text.clone())),
+                    Some((b0, r0, t0)) => {
+                        compared += 1;
+                        run.eval(1);
+                        if *b0 != bag {
+                            run.violation(
+                                &format!("{} and {} are the same value ({}) but do not render to the same tokens: {t0:?} vs {text:?}", r0, r.show(), class.show()),
+                                json!({"op": "typst_render", "value": V::term(r.clone()).to_json()}),
+                                &[],
+                            );
+                        }
                     }
                 }
             }
-            common_orders += common;
-            if common == 0 {
-                recipe_pairs_without_common_order += 1;
-            }
         }
     }
-    run.count("renderings_compared_under_a_common_iteration_order", common_orders);
-    run.count("recipe_pairs_without_common_order", recipe_pairs_without_common_order);
+    run.count("renderings_of_equal_values_compared_as_token_bags", compared);
     run.count("unordered_recipes_under_all_orders", fam.len() as u64);
     // stand-alone items
     let mut items: Vec<(String, String)> = vec![];
